@@ -30,7 +30,7 @@ type env struct {
 
 func (e *env) open() error {
 	st, err := store.Open(e.dir, store.DefaultOptions().WithMultiIndexing(true).WithSynced(false).
-		WithMaxConcurrency(4).WithLogger(sth.QuietLogger()))
+		WithMaxConcurrency(4).WithMVCCReadSetLimit(20_000_000).WithLogger(sth.QuietLogger()))
 	if err != nil {
 		return err
 	}
